@@ -171,6 +171,9 @@ impl Ident {
 }
 #[verifier::external_body] pub struct ExprV { x: usize }
 pub enum ValueE { Ident(Ident), Other(ExprV) }
+impl ValueE {
+    #[verifier::external_body] pub fn for_type(&self, f: &Flags) -> (r: Result<TypeLayout, VErr>) { unimplemented!() }     // Value::for_type (abstract)
+}
 pub enum Expr { Value(ValueE), Index { lhs_raw: Box<Expr>, x: ExprV }, DotLookup { lhs: Box<Expr>, expected_type: TypeLayout, x: ExprV }, Other(ExprV) }
 // the variable at the root of an index / field access chain
 pub open spec fn root(e: Expr) -> Option<Ident> decreases e {
@@ -260,6 +263,9 @@ pub fn for_type_binop(lhs: &Expr, op: &Op, rhs: &Expr, flags: &Flags) -> (r: Res
         (r is Ok && op_writes(*op) && lhs is Value && lhs->Value_0 is Ident) ==> !lhs->Value_0->Ident_0.read_only,
         // ... including an element or field reached through a const variable
         (r is Ok && op_assigns(*op) && root(*lhs) is Some) ==> !root(*lhs)->Some_0.read_only,
+        // C03 / C16: a compound assignment is accepted only onto an assignable place: a name, an element or a field (code generation
+        // has no case for anything else and would panic)
+        (r is Ok && op_assigns(*op)) ==> (lhs is Value && lhs->Value_0 is Ident) || lhs is Index || lhs is DotLookup,
         // C03: an accepted binary operation is supported by the operator table for the operand types
         r is Ok ==> exists|l: TypeLayout, rt: TypeLayout| #[trigger] output_type(&l, &rt, *op, flags) == Some(r->Ok_0),
 {{
@@ -270,11 +276,11 @@ fn main() {{}}
 """
     return gen, [Obl("C10.op.is_op_assign", ["C10", "C03"], fn="Op::is_op_assign", desc="Op::is_op_assign: true exactly for += -= *= /= %= (the operators whose const test Expr::for_type runs)"),
                  Obl("C10.root_ident", ["C10"], fn="Expr::root_ident", desc="Expr::root_ident: the variable at the root of an index / field chain"),
-                 Obl("C10.for_type.binop", ["C10", "C03"], fn="for_type_binop",
+                 Obl("C10.for_type.binop", ["C10", "C03", "C16"], fn="for_type_binop",
                      desc="Expr::for_type (BinOp): `+= -= *= /= %=` and `?=` on a const name are rejected; an accepted operation has an entry in the operator table")], log
 
 
-UNITS.append(VUnit("c10_for_type", ["C10", "C03"], "const test of the writing operators; operator check", build_for_type))
+UNITS.append(VUnit("c10_for_type", ["C10", "C03", "C16"], "const test of the writing operators; operator check", build_for_type))
 
 
 # =====================================================================================================================
